@@ -17,7 +17,10 @@ LEVEL_TEXT = (
     "by evaluating the residual at 64 random real points - a finite, completely enumerated obligation list "
     "that covers all real parameter values as far as sympy's simplifier is trusted; (2) a monitor hooked on "
     "MatrixFactoryGate.matrix judges every numeric evaluation (special angles, random angles, angle pairs, "
-    "fixed relations at 1e-12). Held = no refuting execution among those listed in the evidence."
+    "fixed relations at 1e-12), including gate objects arrived at through re-parametrisation histories "
+    "(replace_params / bind of gates, operations, wrapped gates and circuits, before and after their matrices "
+    "were read and the returned matrices modified by the caller). Held = no refuting execution among those "
+    "listed in the evidence."
 )
 LEVEL_NOTE = "trusted: sympy's simplifier for the symbolic tier (each closed obligation is also confirmed numerically at 64 points), numpy; tolerances 1e-9 (unitarity, group law) and 1e-12 (fixed relations)"
 TECHNIQUE = "runtime monitoring: post-condition oracle on the hooked matrix property; symbolic-valued execution of the real factories judged by a CAS identity check plus dense numeric sweep"
@@ -26,25 +29,34 @@ EXPLANATION = (
     "M^H M - I (and M - M^H when flagged self-adjoint, M(a)M(b)-M(a+b), M(0)-I for the one-parameter "
     "rotation/phase gates) to the zero matrix with rewrite(exp)/expand/simplify and confirms it at 64 "
     "random points; 'obligations'/'discharged' count these. A numeric sweep over special and random "
-    "angles is judged by the hook on MatrixFactoryGate.matrix."
+    "angles is judged by the hook on MatrixFactoryGate.matrix. 'history' cases reach the gates with angles "
+    "a, b, a+b and 0 from earlier gate objects (numeric or symbolic templates) by replace_params / bind, "
+    "directly or through operations, dagger / controlled / power / exp wrappers and circuits, reading (and "
+    "overwriting the returned copies of) matrices in between; every such gate must satisfy the same clauses."
 )
 RULE = (
     "enumerated obligation list over the gate table (27 entries asserted) x {computable+shape, unitary, "
     "flag=>hermitian, group law, zero angle} executed on real symbols, enumerated fixed relations, plus a "
     "numeric sweep: every gate at {0,+-pi/4,+-pi/2,+-pi,+-2pi,+-4pi,1e-9,1e3} and random angles in (-10,10), "
-    "random angle pairs for the group law; non-trivial = parametric gate at a non-special parameter or a "
-    "symbolic obligation; distinct = distinct canonical case strings"
+    "random angle pairs (also near-identical ones, b = +-1e-3..1e-7) for the group law; 'history': a random "
+    "parametric gate (4 of 5 a group gate), a numeric or symbolic template (bare symbol, scaled, shifted, sum "
+    "of two symbols), the gates for a, b, a+b, 0 derived from any earlier gate object of the case by "
+    "replace_params / bind (plain, via GateOperation, Dagger, ControlledGate, Power, Exponential, Circuit; "
+    "numeric -> symbolic -> numeric chains; two-step binds) with matrix reads and caller-side overwrites of the "
+    "returned matrices interleaved, every gate re-read at the end; non-trivial = parametric gate at a "
+    "non-special parameter, a symbolic obligation or a history; distinct = distinct canonical case strings"
 )
 ASSUMPTIONS = [
     "sympy simplify/expand/rewrite are sound (a closed symbolic obligation is additionally confirmed at 64 random real points < 1e-10)",
     "parameters are Python int/float or sympy objects; numpy scalars cannot be ingested by sympy 1.9 (environment)",
 ]
-DECIDING = ["MFG.matrix", "sym-unitary", "sym-grouplaw", "fixed-relation", "num-grouplaw", "table-size"]
+DECIDING = ["MFG.matrix", "sym-unitary", "sym-grouplaw", "fixed-relation", "num-grouplaw", "table-size", "hist-grouplaw",
+            "hist-zero-angle"]
 EXHAUSTIVE = {"sym": "all (gate, obligation) pairs over the 27-entry gate table on symbolic real parameters",
               "fixed": "the fixed relations named in the property", "grid": "every gate at the special-angle grid",
               "group_int": "the additive law a,b -> a+b for every one-parameter group gate at all integer angle pairs "
                            "in -3..3 (given alternately as Python int and float)"}
-BUDGET = {"quick": (4, 40, 900), "thorough": (16, 150, 4000)}
+BUDGET = {"quick": (4, 40, 800), "thorough": (16, 150, 4000)}
 CASE_TIMEOUT = {"quick": 25, "thorough": 60}
 
 GROUP_GATES = ["RX", "RY", "RZ", "RH", "PHASE", "CPHASE", "XX", "YY", "ZZ", "XY"]
@@ -53,7 +65,7 @@ GRID = [0, math.pi / 4, -math.pi / 4, math.pi / 2, -math.pi / 2, math.pi, -math.
 
 
 def classes(tier):
-    return ["sym", "fixed", "grid", "num_random", "num_group", "group_int"]
+    return ["sym", "fixed", "grid", "num_random", "num_group", "group_int", "history"]
 
 
 # ------------------------------------------------------------------ CAS pipeline
@@ -143,7 +155,14 @@ def _post_matrix(mon, call):
     if gate.num_qubits != e["nq"] or tuple(M.shape) != (d, d):
         mon.violation("matrix-shape", f"{gate.name}{gate.params}: shape {M.shape}, declares {gate.num_qubits} qubits")
         return
-    A = GC.to_np(M)
+    try:
+        A = GC.to_np(M)
+    except (TypeError, ValueError):
+        # all parameters are real numbers, yet the matrix does not evaluate to numbers (left-over symbols)
+        free = sorted(map(str, getattr(M, "free_symbols", ())))
+        mon.violation("not-unitary", f"{gate.name}{gate.params}: the matrix for these real parameters is not numeric "
+                                     f"(free symbols {free}), so M^H M = I does not hold")
+        return
     if not L.is_unitary(A, 1e-9):
         mon.violation("not-unitary", f"{gate.name}{gate.params}: |M^H M - I| = {L.maxdiff(A.conj().T @ A, np.eye(d))}")
         return
@@ -170,6 +189,8 @@ def install(mon, reach):
             reach.watch(getattr(MX, fname), fname)
     reach.watch(G.MatrixFactoryGate.matrix, "MatrixFactoryGate.matrix")
     reach.watch(G.MatrixFactoryGate.dagger, "MatrixFactoryGate.dagger")
+    reach.watch(G.MatrixFactoryGate.replace_params, "MatrixFactoryGate.replace_params")
+    reach.watch(G.MatrixFactoryGate.bind, "MatrixFactoryGate.bind")
     mon.hook_method(G.MatrixFactoryGate, "matrix", post=_post_matrix, name="MFG.matrix")
 
 
@@ -194,6 +215,266 @@ FIXED = ["table", "S*S=Z", "T*T=S", "SX*SX=X", "H*Z*H=X", "CNOT=cX", "CZ=cZ", "S
 def _make(name, params):
     e = GC.builtin_table()[name]
     return e["ref"] if e["kind"] == "fixed" else e["ref"](*params)
+
+
+# ------------------------------------------------------------------ histories of gate objects
+# The property speaks about "the gate's matrix" for real parameter values, whatever way the gate object with
+# those parameters came into being.  A 'history' case reaches the gates for a, b, a+b and 0 from EARLIER gate
+# objects of the same case through the public re-parametrisation API (replace_params / bind on the gate, on an
+# operation, on dagger / controlled / power / exp wrappers, on a circuit; numeric -> symbolic -> numeric chains;
+# two-step binds), reads matrices before and after each step and overwrites the matrices it was handed (they
+# belong to the caller).  State that travels with or between gate objects (per-instance memos, memos shared
+# through dataclasses.replace, matrices handed out by reference) then shows up in the stated clauses:
+# unitarity / flag => Hermitian in the hook, the additive law and the zero angle in the driver.
+WRAP_REPLACE_NUM = ("gate", "gate", "op", "dagger", "controlled", "power", "exp")
+WRAP_REPLACE_SYM = ("gate", "gate", "op", "dagger", "controlled")
+WRAP_BIND = ("gate", "gate", "op", "dagger", "controlled", "circuit")
+
+
+def _unwrap(g):
+    if hasattr(g, "gate") and hasattr(g, "qubit_indices"):
+        g = g.gate
+    while hasattr(g, "wrapped_gate"):
+        g = g.wrapped_gate
+    return g
+
+
+def _through(g, wrapper, f):
+    """f(<g seen through wrapper>) -> the MatrixFactoryGate inside the result"""
+    if wrapper == "gate":
+        r = f(g)
+    elif wrapper == "op":
+        r = f(g(*range(g.num_qubits)))
+    elif wrapper == "dagger":
+        r = f(g.dagger)
+    elif wrapper == "controlled":
+        r = f(g.controlled(1))
+    elif wrapper == "power":
+        r = f(g.power(2))
+    elif wrapper == "exp":
+        r = f(g.exp)
+    elif wrapper == "circuit":
+        from orquestra.quantum.circuits import Circuit
+
+        r = f(Circuit([g(*range(g.num_qubits))])).operations[0]
+    else:
+        raise ValueError(wrapper)
+    return _unwrap(r)
+
+
+def _real_value(rng):
+    u = rng.random()
+    if u < 0.55:
+        return rng.uniform(-10, 10)
+    if u < 0.8:
+        return rng.randint(-6, 6)
+    if u < 0.9:
+        return rng.choice(GRID)
+    return sympy.Rational(rng.randint(-8, 8), rng.randint(1, 6)) * rng.choice((sympy.pi, 1))
+
+
+def _sym_exprs(rng, nparams, tag):
+    """symbolic parameters as users write them (plain symbols, no assumptions) and, per parameter, the symbol
+    map that makes it equal a requested value"""
+    exprs, solvers = [], []
+    for k in range(nparams):
+        th = sympy.Symbol(f"th{tag}_{k}")
+        kind = rng.choice(("bare", "bare", "scaled", "shifted", "sum"))
+        if kind == "bare":
+            exprs.append(th)
+            solvers.append(lambda t, th=th: {th: t})
+        elif kind == "scaled":
+            c = rng.choice((2, -1, 4))  # division by these is exact in binary floating point
+            exprs.append(c * th)
+            solvers.append(lambda t, th=th, c=c: {th: t / c})
+        elif kind == "shifted":
+            c = rng.choice((1, -2, 3))
+            exprs.append(th + c)
+            solvers.append(lambda t, th=th, c=c: {th: t - c})
+        else:
+            ph = sympy.Symbol(f"ph{tag}_{k}")
+            r = round(rng.uniform(-5, 5), 3)
+            exprs.append(th + ph)
+            solvers.append(lambda t, th=th, ph=ph, r=r: {th: r, ph: t - r})
+    exprs = tuple(exprs)
+
+    def solve(target):
+        m = {}
+        for s, t in zip(solvers, target):
+            m.update(s(t))
+        return m
+
+    return exprs, solve
+
+
+def _history_plan(rng, tab):
+    """All random decisions of a history case (no library call): the gate, the target parameters by label, the
+    template and the list of steps over a growing pool of gate objects."""
+    if rng.random() < 0.8:
+        name = rng.choice(GROUP_GATES)
+    else:
+        # the other parametric gates (only the clauses judged by the hook apply); a factory that runs sympy's
+        # simplifier on every call (three-parameter gates) is drawn less often to keep a case cheap
+        others = sorted(n for n in tab if tab[n]["nparams"] and n not in GROUP_GATES)
+        name = rng.choices(others, weights=[1 if tab[n]["nparams"] >= 3 else 5 for n in others])[0]
+    npar = tab[name]["nparams"]
+    group = name in GROUP_GATES
+    if group:
+        a, b = _real_value(rng), _real_value(rng)
+        u = rng.random()
+        if u < 0.15:
+            b = -a
+        elif u < 0.35:
+            b = rng.choice((-1, 1)) * 10.0 ** -rng.randint(3, 7)
+        targets = {"a": (a,), "b": (b,), "a+b": (a + b,), "0": (rng.choice((0, 0.0, sympy.Integer(0))),)}
+    else:
+        targets = {"p": tuple(_real_value(rng) for _ in range(npar)), "q": tuple(_real_value(rng) for _ in range(npar))}
+    labels = list(targets)
+    rng.shuffle(labels)
+    pool = []  # entries: dict(kind='num'|'sym', label=..., params=..., solve=...)
+    steps = []
+
+    def inspect_step(i, p=0.65):
+        if rng.random() < p:
+            steps.append(("read", i, rng.random() < 0.5))
+            if rng.random() < 0.15:
+                steps.append(("read", i, rng.random() < 0.5))
+
+    u = rng.random()
+    if u < 0.3:  # numeric template that is none of the gates the clauses are about
+        pool.append(dict(kind="num", label=None, params=tuple(_real_value(rng) for _ in range(npar))))
+    elif u < 0.5:  # the first target itself, made by the prototype
+        lab = labels.pop(0)
+        pool.append(dict(kind="num", label=lab, params=targets[lab]))
+    else:
+        ex, solve = _sym_exprs(rng, npar, 0)
+        pool.append(dict(kind="sym", label=None, params=ex, solve=solve))
+    template = pool[0]
+    for lab in labels:
+        i = rng.randrange(len(pool))
+        inspect_step(i)
+        src = pool[i]
+        if src["kind"] == "num" and rng.random() < 0.35:
+            # numeric -> symbolic -> numeric
+            ex, solve = _sym_exprs(rng, npar, len(pool))
+            steps.append(("replace", i, rng.choice(WRAP_REPLACE_SYM), ex, len(pool)))
+            pool.append(dict(kind="sym", label=None, params=ex, solve=solve))
+            i = len(pool) - 1
+            inspect_step(i, 0.5)
+            src = pool[i]
+        if src["kind"] == "sym" and rng.random() < 0.75:
+            m = src["solve"](targets[lab])
+            keys = list(m)
+            if len(keys) > 1 and rng.random() < 0.5:
+                rng.shuffle(keys)
+                cut = rng.randint(1, len(keys) - 1)
+                maps = [{k: m[k] for k in keys[:cut]}, {k: m[k] for k in keys[cut:]}]
+            else:
+                maps = [m]
+            steps.append(("bind", i, tuple(rng.choice(WRAP_BIND) for _ in maps), maps, rng.random() < 0.5, len(pool)))
+        else:
+            wr = WRAP_REPLACE_NUM if src["kind"] == "num" else WRAP_REPLACE_SYM
+            steps.append(("replace", i, rng.choice(wr), targets[lab], len(pool)))
+        pool.append(dict(kind="num", label=lab, params=targets[lab]))
+        inspect_step(len(pool) - 1, 0.35)
+    final = [i for i, e in enumerate(pool) if e["label"] is not None]
+    rng.shuffle(final)
+    for i in final:  # every gate the clauses are about is read (again) once all the others exist
+        steps.append(("read", i, False))
+    return name, group, targets, template, pool, steps
+
+
+def _same_params(got, want):
+    if len(got) != len(want):
+        return False
+    try:
+        return all(abs(complex(sympy.N(g)) - complex(sympy.N(w))) <= 1e-12 * max(1.0, abs(complex(sympy.N(w))))
+                   for g, w in zip(got, want))
+    except TypeError:
+        return False
+
+
+class _NotNumeric(Exception):
+    pass
+
+
+def _history_case(ctx):
+    from ..gen.scribble import scribble
+
+    tab = GC.builtin_table()
+    rng = ctx.rng
+    name, group, targets, template, pool, steps = _history_plan(rng, tab)
+
+    def show(st):
+        if st[0] == "read":
+            return f"read g{st[1]}" + ("+overwrite" if st[2] else "")
+        if st[0] == "replace":
+            return f"g{st[4]}=g{st[1]}.{st[2]}.replace_params{st[3]}"
+        return f"g{st[5]}=g{st[1]}." + ".".join(f"{w}.bind({m})" for w, m in zip(st[2], st[3])) + \
+            (" (read between)" if st[4] and len(st[3]) > 1 else "")
+
+    ctx.describe(f"history {name} targets={targets} g0={name}{template['params']}; " + "; ".join(show(s) for s in steps), True)
+    ctx.mon.note(f"history:template-{template['kind']}")
+    d = 2 ** tab[name]["nq"]
+    gates = [_make(name, template["params"])]
+    reads = {lab: [] for lab in targets}
+
+    def read(i, overwrite):
+        g = gates[i]
+        M = g.matrix  # judged by the hook when the parameters are real numbers
+        entry = pool[i]
+        if entry["label"] is not None:
+            try:
+                reads[entry["label"]].append(GC.to_np(M))
+            except (TypeError, ValueError):
+                raise _NotNumeric()  # real parameters, matrix with left-over symbols: reported by the hook
+        if overwrite:
+            scribble(M)  # the caller owns what .matrix returned
+
+    try:
+        for st in steps:
+            if st[0] == "read":
+                read(st[1], st[2])
+                continue
+            if st[0] == "replace":
+                _, i, wrapper, params, j = st
+                g = _through(gates[i], wrapper, lambda o: o.replace_params(params))
+                ctx.mon.note(f"history:replace-via-{wrapper}")
+            else:
+                _, i, wrappers, maps, between, j = st
+                g = gates[i]
+                for k, (w, m) in enumerate(zip(wrappers, maps)):
+                    if k and between:
+                        g.matrix
+                    g = _through(g, w, lambda o: o.bind(m))
+                    ctx.mon.note(f"history:bind-via-{w}")
+            gates.append(g)
+            if pool[j]["kind"] == "num" and not _same_params(g.params, pool[j]["params"]):
+                # re-parametrisation itself is not this property's subject: without the requested gate the
+                # clauses cannot be evaluated on this history
+                ctx.mon.note("history:params-differ-from-request")
+                return
+    except _NotNumeric:
+        ctx.mon.note("history:matrix-not-numeric")
+        return
+    except Exception as ex:
+        ctx.check("hist-computable", False, f"{name}: {type(ex).__name__} {ex} in history {ctx.desc}")
+        return
+    ctx.check("hist-computable", True)
+    if not group:
+        return
+    worst, wi = 0.0, None
+    for x, A in enumerate(reads["a"]):
+        for y, B in enumerate(reads["b"]):
+            for z, C in enumerate(reads["a+b"]):
+                dd = L.maxdiff(A @ B, C)
+                if not dd <= worst:
+                    worst, wi = dd, (x, y, z)
+    ctx.check("hist-grouplaw", worst <= 1e-9,
+              lambda: f"{name}: read #{wi[0]} of angle a={targets['a'][0]!r} times read #{wi[1]} of angle b={targets['b'][0]!r} differs "
+                      f"from read #{wi[2]} of angle a+b={targets['a+b'][0]!r} by {worst}; history: {ctx.desc}")
+    z = max(L.maxdiff(Z, np.eye(d)) for Z in reads["0"])
+    ctx.check("hist-zero-angle", z <= 1e-12, f"{name}({targets['0'][0]!r}) differs from the identity by {z}; history: {ctx.desc}")
 
 
 def run_case(ctx):
@@ -306,8 +587,12 @@ def run_case(ctx):
     if cls == "num_group":
         name = rng.choice(GROUP_GATES)
         a, b = rng.uniform(-10, 10), rng.uniform(-10, 10)
-        if rng.random() < 0.2:
+        u = rng.random()
+        if u < 0.2:
             b = -a
+        elif u < 0.35:
+            # near-identical angles a and a+b within one process (keys rounded / formatted too coarsely)
+            b = rng.choice((-1, 1)) * 10.0 ** -rng.randint(3, 7)
         ctx.describe(f"group {name} a={a} b={b}", True)
         m = lambda p: GC.to_np(_make(name, (p,)).matrix)
         d = L.maxdiff(m(a) @ m(b), m(a + b))
@@ -331,5 +616,8 @@ def run_case(ctx):
         # the same angle given as int and as float denotes the same matrix
         d2 = L.maxdiff(m(int(a)), m(float(a)))
         ctx.check("num-int-float-agree", d2 <= 1e-12, f"{name}({int(a)!r}) differs from {name}({float(a)!r}) by {d2}")
+        return
+    if cls == "history":
+        _history_case(ctx)
         return
     raise ValueError(cls)
